@@ -65,6 +65,15 @@ def has_unknown_executor_twin(ast):
     return bool(bad & good)
 
 
+def has_fork(n):
+    """The program forks a thread (fork_thread directly or through the thread_roundtrip / mk_thread templates)."""
+    if isinstance(n, list) and n and n[0] == "fork":
+        return True
+    if isinstance(n, list) and n and n[0] == "call" and n[1] in ("thread_roundtrip", "mk_thread"):
+        return True
+    return any(has_fork(c) for c in wf.children(n)) if isinstance(n, list) and n and isinstance(n[0], str) else False
+
+
 def has_multi_element_set(n):
     if isinstance(n, list) and n and n[0] == "cont" and n[1] == "set" and len(n[2]) >= 2:
         return True
@@ -161,6 +170,8 @@ def run_program(ctx, rnd, ast, is_handle, shape, n_sched, where):
         mech = "call-graph-depends-on-timing"
     if d[0] == "result" and base[2]["result"][0] != dis_any[2]["result"][0]:
         mech = "result-kind-depends-on-timing"
+    if not is_handle and d[0] != "result" and has_fork(ast):
+        mech = "forked-thread-child-in-parent-record-depends-on-completion-order"
     if d[0] == "result" and has_unknown_executor_twin(ast) and any(
             "Unknown executor" in repr(v[2]["result"]) for v in (base, dis_any)):
         mech = "unknown-executor-call-shares-identity-with-valid-twin"
